@@ -395,7 +395,11 @@ func genChain(r *rng, o chainOpts) *ccase {
 func init() {
 	streams["ifaceout"] = &stream{gen: func(r *rng) string {
 		c := genChain(r, chainOpts{moreStatic: r.chance(1, 2)})
-		addDecoMotif(r, c)
+		if r.chance(1, 2) {
+			addDecoMotif(r, c)
+		} else {
+			addUpDecoMotif(r, c)
+		}
 		return c.encode()
 	}, run: runChain}
 }
@@ -429,4 +433,38 @@ func addDecoMotif(r *rng, c *ccase) {
 		return
 	}
 	c.provs = append([]*cprovider{src, dec, use}, c.provs...)
+}
+
+// the same upward: the final function returns T and is Loose for I; a wrapper receives (T, I) and
+// returns I; a wrapper above it receives I; the invoke function receives I.
+func addUpDecoMotif(r *rng, c *ccase) {
+	pairs := [][2]int{{pT0, pI0}, {pT1, pI1}, {pT2, pI2}, {pU0, pJ0}, {pT1, pI0}, {pT3, pI2}}
+	pr := pairs[r.intn(len(pairs))]
+	t, i := tcOf(pr[0]), tcOf(pr[1])
+	var final *cprovider
+	for _, p := range c.provs {
+		if p.annots&aNonFinal == 0 {
+			final = p
+		}
+	}
+	if final == nil || final.shape != 2 {
+		return
+	}
+	if !containsInt(final.outs, t) {
+		final.outs = append(append([]int{}, final.outs...), t)
+	}
+	if !containsInt(final.loose, i) {
+		final.loose = append(append([]int{}, final.loose...), i)
+	}
+	n := maxPid(c)
+	x := &cprovider{pid: n + 1, shape: 3, innerOuts: []int{t, i}, outs: []int{i}, calls: []int{1}, passthru: r.chance(1, 2)}
+	y := &cprovider{pid: n + 2, shape: 3, innerOuts: []int{i}, outs: []int{i}, calls: []int{1}, passthru: r.chance(1, 2)}
+	if r.chance(1, 3) {
+		y.outs = nil
+		y.hasCO = false
+	}
+	if !containsInt(c.invOuts, i) && len(y.outs) > 0 {
+		c.invOuts = append(append([]int{}, c.invOuts...), i)
+	}
+	c.provs = append([]*cprovider{y, x}, c.provs...)
 }
